@@ -166,13 +166,8 @@ pub fn exec(case: &[i64]) -> Outcome {
   let obs = run(e, &bytes, v);
   Outcome::new(obs).class(&format!("entry-{e:02}"))
 }
-/// known class: the third-party DID URL parser panics on a percent sign near the end of a component (see C10)
-pub fn classify(case: &[i64]) -> Option<&'static str> {
-  let mut v = &case[1..]; let bytes = take_bytes(&mut v).unwrap_or_default();
-  // any entry point that parses a DID URL out of its input: the class is "the input carries a percent sign" (raw, or inside a base64url segment of a token)
-  let pct = bytes.contains(&b'%') || bytes.split(|b| *b == b'.' || *b == b'~').any(|seg| identity_jose::jwu::decode_b64(seg).map_or(false, |d| d.contains(&b'%')));
-  if pct && ![6, 7, 19, 24, 26, 27, 28, 29].contains(&case[0]) { Some("K_pct") } else { None }
-}
+/// no known class is left for C05 (K_pct was repaired by 6c07746 and 23a2156): every panic is a violation
+pub fn classify(_case: &[i64]) -> Option<&'static str> { None }
 
 fn mutate(rng: &mut Rng, seed: &[u8], alphabet: &[u8]) -> Vec<u8> {
   let mut b = seed.to_vec();
@@ -270,7 +265,10 @@ pub fn gen(rng: &mut Rng, thorough: bool, sink: &mut Sink) {
     (36, vec![json!({"@context": "https://identity.foundation/.well-known/did-configuration/v1", "linked_dids": [jws_ed.clone(), jws_ec.clone()]}), json!({"@context": "https://identity.foundation/.well-known/did-configuration/v1", "linked_dids": [hdr(json!({"alg": "EdDSA", "kid": "did:example:issuer#k"}), &serde_json::to_vec(&json!({"iss": "did:example:issuer", "sub": "did:example:issuer", "nbf": 1262304000, "exp": 1893456000, "vc": {"@context": ["https://www.w3.org/2018/credentials/v1", "https://identity.foundation/.well-known/did-configuration/v1"], "type": ["VerifiableCredential", "DomainLinkageCredential"], "credentialSubject": {"origin": "https://foo.example.com"}}})).unwrap(), &[7u8; 64])]})]),
     (37, vec![json!({"vct": "https://issuer.example/type", "name": "n", "description": "d", "extends": "https://issuer.example/loop", "extends#integrity": "sha256-9cLlJNXN2TlqRXkHJ1VtbMkeCXzeXbFLQaAkUFGl7Tk", "schema": {"type": "object", "properties": {"name": {"type": "string"}}}, "claims": [{"path": ["name"], "sd": "always"}, {"path": ["degrees", null, "n"], "sd": "never"}, {"path": ["degrees", 1]}], "display": [{"lang": "en", "name": "x"}]}),
               json!({"vct": "https://issuer.example/type", "schema_uri": "https://issuer.example/schema", "schema_uri#integrity": "sha256-9cLlJNXN2TlqRXkHJ1VtbMkeCXzeXbFLQaAkUFGl7Tk", "extends": "https://issuer.example/other"}), json!({"vct": "https://issuer.example/type"})]),
-    (38, vec![json!({"path": ["address", "street"], "sd": "always"}), json!({"path": ["degrees", null, "n"], "sd": "never", "display": [{"lang": "en", "label": "l"}]}), json!({"path": ["degrees", 2], "sd": "allowed", "svg_id": "x"}), json!({"path": []}), json!({"path": [null]}), json!({"path": [-1]})]),
+    (38, vec![json!({"path": ["address", "street"], "sd": "always"}), json!({"path": ["degrees", null, "n"], "sd": "never", "display": [{"lang": "en", "label": "l"}]}), json!({"path": ["degrees", 2], "sd": "allowed", "svg_id": "x"}), json!({"path": []}), json!({"path": [null]}), json!({"path": [-1]}),
+              // positions at and beyond the end of the arrays the values hold, positions applied to objects / scalars / null, every sd mode
+              json!({"path": ["degrees", 3], "sd": "always"}), json!({"path": ["degrees", 3], "sd": "never"}), json!({"path": ["degrees", 99, "n"], "sd": "always"}), json!({"path": ["degrees", null, "n", 1], "sd": "always"}), json!({"path": ["degrees", 0, "n", 0], "sd": "never"}),
+              json!({"path": ["name", 0], "sd": "always"}), json!({"path": [0], "sd": "always"}), json!({"path": [2], "sd": "never"}), json!({"path": ["address", 0], "sd": "always"}), json!({"path": ["degrees", 1, 0], "sd": "always"}), json!({"path": ["degrees", 18446744073709551615u64], "sd": "always"}), json!({"path": ["degrees", 1], "sd": "always"})]),
     (39, vec![json!({"issuer": "https://issuer.example/a", "jwks": {"keys": [jwk_ed.clone()]}}), json!({"issuer": "https://issuer.example/a", "jwks_uri": "https://issuer.example/jwks"}), json!({"issuer": "did:example:x", "jwks_uri": "https://issuer.example/jwks", "jwks": {"keys": []}})]),
     (45, vec![json!({"kty": "EC", "crv": "BLS12381G2", "x": "AA", "y": "AA", "d": "AA", "kid": "k", "alg": "BBS-BLS12381-SHA256", "use": "sig", "key_ops": ["sign", "proofGeneration"], "x5u": "https://a.example/c", "x5c": ["AA"], "x5t": "AA"}),
               json!({"kty": "OKP", "crv": "Ed25519", "x": "AA"}), json!({"kty": "OKP", "crv": "BLS12381G2", "x": "AA", "d": "AA"}), json!({"kty": "OKP", "crv": "BLS12381G2", "x": "AA", "y": "AA"}), json!({"kty": "EC", "crv": "P-256", "x": "AA", "y": "AA"}), json!({"kty": "RSA", "crv": "P-256", "x": "AA"}), jwk_ec.clone(), jwk_ed.clone()]),
